@@ -65,6 +65,26 @@ impl ZoneStore {
         Ok(Self::new(packet_store, metrics))
     }
 
+    /// Create a store over a caller-supplied redb database (verification harness only).
+    ///
+    /// `cache_capacity` replaces `DEFAULT_CACHE_CAPACITY` (whose hash map is pre-allocated).
+    #[cfg(iroh_verif)]
+    pub(crate) fn verif_with_database(
+        db: redb::Database,
+        options: Options,
+        cache_capacity: usize,
+        metrics: Arc<Metrics>,
+    ) -> Result<Self> {
+        let packet_store = SignedPacketStore::open(db, options, metrics.clone())?;
+        let zone_cache = ZoneCache::new(cache_capacity, metrics.clone());
+        Ok(Self {
+            store: Arc::new(packet_store),
+            cache: Arc::new(Mutex::new(zone_cache)),
+            dht: None,
+            metrics,
+        })
+    }
+
     /// Configure a mainline DHT client for resolution of packets as a fallback.
     ///
     /// This will be used only as a fallback if there is no local info available.
